@@ -149,6 +149,10 @@ def get_mir(repo, cfg="main"):
     ensure_tools()
     d = os.path.join(facts_dir(repo), "mir-" + cfg)
     done = os.path.join(d, "DONE")
+    try:
+        os.utime(facts_dir(repo))
+    except OSError:
+        pass
     if not os.path.exists(done):
         with Lock():
             if not os.path.exists(done):
@@ -193,11 +197,15 @@ def build_mir(repo, cfg, d):
         fh.write("%.1f\n" % (time.time() - t0))
 
 
-def prune_cache(keep=6):
-    """keep only the most recent fact directories"""
+def prune_cache(keep=8, min_age_s=1200):
+    """keep the most recently used fact directories; never remove one used within the last 20 minutes (another check may
+    be reading it)"""
     base = os.path.join(CACHE, "facts")
     if not os.path.isdir(base):
         return
+    now = time.time()
     ds = sorted((os.path.getmtime(os.path.join(base, x)), x) for x in os.listdir(base))
-    for _, x in ds[:-keep]:
+    for mt, x in ds[:-keep]:
+        if now - mt < min_age_s:
+            continue
         shutil.rmtree(os.path.join(base, x), ignore_errors=True)
